@@ -76,3 +76,4 @@ def run(chk):
     if not chk.quick():
         chk.require('many_tokens_cases', 1)      # 66000 tokens: more than a 16-bit counter holds (split only)
     chk.min_cases = E
+    chk.coverage(build('cov'), 300)       # thorough tier: gcov line coverage of the anchored sources under this workload
